@@ -260,4 +260,30 @@ def oracle(case_or_dump, rng_seed=0):
                         for d in reachable(nexts, nexts[l]):
                             if pos_exit[d] > pos_exit[l]:
                                 return f'DFS: {l} exits before its descendant {d}'
+    # dfs / bfs return lazy iterators: two traversals of ONE circuit whose lifetimes overlap (consumed alternately; one
+    # started from inside a hook of the other) each visit what they visit alone
+    alone_d = [g.label for g in c.dfs()]
+    alone_b = [g.label for g in c.bfs(inverse=True)]
+    it1, it2 = iter(c.dfs()), iter(c.bfs(inverse=True))
+    got1, got2 = [], []
+    for _ in range(2 * len(labels) + 2):
+        for it, got in ((it1, got1), (it2, got2)):
+            try:
+                got.append(next(it).label)
+            except StopIteration:
+                pass
+    if got1 != alone_d or got2 != alone_b:
+        return (f'overlapping traversals: a dfs() and a bfs(inverse=True) consumed alternately yield {got1} / {got2}, '
+                f'alone they yield {alone_d} / {alone_b}')
+    nested, inner = [], []
+    for g in c.dfs(on_exit_hook=lambda g_, s_: inner.append([x.label for x in c.bfs([g_.label])])):
+        nested.append(g.label)
+        if len(nested) > 2 * len(labels) + 2:
+            return ('overlapping traversals: a dfs() whose exit hook runs a bfs of the same circuit keeps yielding '
+                    f'({nested[:12]} ...)')
+    if nested != alone_d:
+        return f'overlapping traversals: a dfs() whose exit hook runs a bfs yields {nested}, alone it yields {alone_d}'
+    for cone in inner:
+        if not cone or sorted(cone) != sorted(reachable(ops, cone[:1])):
+            return f'overlapping traversals: the bfs run inside an exit hook yields {cone}'
     return None
